@@ -32,9 +32,6 @@ def referencesOf (res : List Res) (d : Nat) : List Nat := d :: cellsOf res d
 /-- the token positions `rename` edits for the local declaration at `d` -/
 def renameEdits (res : List Res) (d : Nat) : List Nat := d :: cellsOf res d
 
-/-- rename / references requested at a name token of program `p` (none: the token denotes a global) -/
-def renameAt (p : List Stat) (tok : Nat) : Option (List Nat) :=
-  (targetOf (implementation p) tok).map (renameEdits (implementation p))
 
 /-! ## Applying single-token edits -/
 
@@ -68,9 +65,46 @@ def sizeStat : Stat → Nat
   | .do_ body => 2 + sizeBlock body
   | .if_ c t e => 4 + sizeExpr c + sizeBlock t + sizeBlock e
   | .callS _ args => 3 + sizeExprs args
+  | .loclAttr _ val => 6 + sizeExpr val
+  | .method _ k _ ps body => 5 + 2 * k + ps.length + sizeBlock body
 def sizeBlock : List Stat → Nat
   | [] => 0
   | st :: rest => sizeStat st + sizeBlock rest
+end
+
+mutual
+/-- `d` is the position of an implicit `self` declaration (the `:` of a method definition) -/
+def selfDeclAtExpr (d : Nat) (pos : Nat) : Expr → Bool
+  | .name _ => false
+  | .lit => false
+  | .call _ args => selfDeclAtExprs d (pos + 4) args
+  | .func ps body => selfDeclAtBlock d (pos + 2 * (3 + ps.length)) body
+def selfDeclAtExprs (d : Nat) (pos : Nat) : List Expr → Bool
+  | [] => false
+  | e :: es => selfDeclAtExpr d pos e || selfDeclAtExprs d (pos + 2 * sizeExpr e) es
+def selfDeclAtStat (d : Nat) (pos : Nat) : Stat → Bool
+  | .locl names vals => selfDeclAtExprs d (pos + 2 * (1 + names.length + eqTokens vals)) vals
+  | .assign vars vals => selfDeclAtExprs d (pos + 2 * (vars.length + 1)) vals
+  | .localFunc _ ps body => selfDeclAtBlock d (pos + 2 * (5 + ps.length)) body
+  | .funcStat _ ps body => selfDeclAtBlock d (pos + 2 * (4 + ps.length)) body
+  | .forNum _ e1 e2 body =>
+    selfDeclAtExpr d (pos + 6) e1 || selfDeclAtExpr d (pos + 6 + 2 * sizeExpr e1) e2 ||
+      selfDeclAtBlock d (pos + 8 + 2 * sizeExpr e1 + 2 * sizeExpr e2) body
+  | .forIn vs e body =>
+    selfDeclAtExpr d (pos + 2 * (2 + vs.length)) e || selfDeclAtBlock d (pos + 2 * (3 + vs.length) + 2 * sizeExpr e) body
+  | .while_ c body => selfDeclAtExpr d (pos + 2) c || selfDeclAtBlock d (pos + 4 + 2 * sizeExpr c) body
+  | .repeat_ body c => selfDeclAtBlock d (pos + 2) body || selfDeclAtExpr d (pos + 4 + 2 * sizeBlock body) c
+  | .do_ body => selfDeclAtBlock d (pos + 2) body
+  | .if_ c t e =>
+    selfDeclAtExpr d (pos + 2) c || selfDeclAtBlock d (pos + 4 + 2 * sizeExpr c) t ||
+      selfDeclAtBlock d (pos + 6 + 2 * sizeExpr c + 2 * sizeBlock t) e
+  | .callS _ args => selfDeclAtExprs d (pos + 4) args
+  | .loclAttr _ val => selfDeclAtExpr d (pos + 12) val
+  | .method _ k colon ps body =>
+    (colon && decide (pos + 4 * k = d)) || selfDeclAtBlock d (pos + 2 * (4 + 2 * k + ps.length)) body
+def selfDeclAtBlock (d : Nat) (pos : Nat) : List Stat → Bool
+  | [] => false
+  | st :: rest => selfDeclAtStat d pos st || selfDeclAtBlock d (pos + 2 * sizeStat st) rest
 end
 
 mutual
@@ -112,6 +146,10 @@ def substStat (edits : List Nat) (new : Name) (pos : Nat) : Stat → Stat
     .if_ (substExpr edits new (pos + 2) c) (substBlock edits new (pos + 4 + 2 * sizeExpr c) t)
       (substBlock edits new (pos + 6 + 2 * sizeExpr c + 2 * sizeBlock t) e)
   | .callS f args => .callS (substName edits new pos f) (substExprs edits new (pos + 4) args)
+  | .loclAttr n val => .loclAttr (substName edits new (pos + 2) n) (substExpr edits new (pos + 12) val)
+  | .method obj k colon ps body =>
+    .method (substName edits new (pos + 2) obj) k colon (substNames edits new (pos + 6 + 4 * k) ps)
+      (substBlock edits new (pos + 2 * (4 + 2 * k + ps.length)) body)
 def substBlock (edits : List Nat) (new : Name) (pos : Nat) : List Stat → List Stat
   | [] => []
   | st :: rest => substStat edits new pos st :: substBlock edits new (pos + 2 * sizeStat st) rest
@@ -174,6 +212,12 @@ def alphaStat (d : Nat) (new : Name) (env : Env) (pos : Nat) : Stat → Stat × 
     (.if_ (alphaExpr d new env (pos + 2) c) (alphaBlock d new env (pos + 4 + 2 * sizeExpr c) t).1
       (alphaBlock d new env (pos + 6 + 2 * sizeExpr c + 2 * sizeBlock t) e).1, env)
   | .callS f args => (.callS (alphaUse d new env f) (alphaExprs d new env (pos + 4) args), env)
+  | .loclAttr n val =>
+    (.loclAttr (if pos + 2 = d then new else n) (alphaExpr d new env (pos + 12) val), (n, pos + 2) :: env)
+  | .method obj k colon ps body =>
+    (.method (alphaUse d new env obj) k colon (alphaBinders d new (pos + 6 + 4 * k) ps)
+      (alphaBlock d new (bindNames (selfEnv colon (pos + 4 * k) env) (pos + 6 + 4 * k) ps)
+        (pos + 2 * (4 + 2 * k + ps.length)) body).1, env)
 def alphaBlock (d : Nat) (new : Name) (env : Env) (pos : Nat) : List Stat → List Stat × Env
   | [] => ([], env)
   | st :: rest =>
@@ -183,6 +227,13 @@ end
 
 /-- the program with the local declaration at token `d` renamed to `new` -/
 def alphaProg (d : Nat) (new : Name) (p : List Stat) : List Stat := (alphaBlock d new [] startPos p).1
+
+/-- rename requested at a name token of program `p`. None: the token denotes a global, or the
+implicit `self` of a method (which has no name token to rename; the handler answers nothing) -/
+def renameAt (p : List Stat) (tok : Nat) : Option (List Nat) :=
+  match targetOf (implementation p) tok with
+  | some d => if selfDeclAtBlock d startPos p then none else some (renameEdits (implementation p) d)
+  | none => none
 
 /-- the program after applying `rename` at the name token `tok` with the new name `new` -/
 def applyRename (p : List Stat) (tok : Nat) (new : Name) : List Stat :=
